@@ -263,7 +263,7 @@ static Case gen_c16()
   }
   case 7: // wrong length
   {
-    long L = g::oneof<long>({0, 1, 4, 20, 22, 23, 25, 26, 28, 32, 40});
+    long L = g::oneof<long>({0, 1, 4, 20, 22, 23, 25, 26, 28, 32, 40, 48, 88, 152, 279, 280, 281, 536, 792, 1048});
     if ((size_t)L < s.size())
       s = s.substr(0, (size_t)L);
     else
@@ -418,6 +418,23 @@ static void fixed_c16(Ctx &ctx)
         c.setb("s", bytes(s.begin(), s.end()));
         eval_fixed(*p, ctx, c);
       }
+  // every length up to 1124 (and 24 + 2^16): a valid key with n more alphabet characters behind it, in front of it, or
+  // between its 22 data characters and the padding - whatever the validator does with the length it is given
+  // (strlen of the candidate), only 24 characters can be a key
+  for (int n = 1; n <= 1100 + 2; n++)
+    for (int form = 0; form < 3; form++)
+    {
+      if (!mine(ctx, i++))
+        continue;
+      size_t extra = n <= 1100 ? (size_t)n : n == 1101 ? 65536 : 65536 + 256;
+      std::string fill(extra, "AQgw"[form + (n & 1)]);
+      std::string s = form == 0 ? base + fill : form == 1 ? fill + base : base.substr(0, 22) + fill + "==";
+      Case c;
+      c.set("kind", "key");
+      c.setb("s", bytes(s.begin(), s.end()));
+      eval_fixed(*p, ctx, c);
+    }
+  ctx.stats.info["exhaustive_lengths"] = "a valid key extended by 1..1100, 65536 and 65792 alphabet characters (behind / in front / before the padding)";
   ctx.stats.info["exhaustive_single_char_insertions"] = "25 positions x 255 byte values on one valid key (1..4 copies in front / behind)";
   ctx.stats.info["exhaustive_single_char_substitutions"] = "24 positions x 255 byte values on one valid key";
 }
